@@ -280,7 +280,11 @@ class C19(Check):
         # 1. dictionary form is JSON serialisable
         d = o.to_dict()
         try:
-            text = json.dumps(d)
+            # a JSON object is an unordered set of members: one text in two is written with its keys sorted
+            sort_keys = len(spec['surfs']) % 2 == 1
+            text = json.dumps(d, sort_keys=sort_keys)
+            if sort_keys:
+                out.cls('json_text_with_sorted_keys')
         except TypeError as e:
             out.fail('json_serialisable', error=str(e)[:200], edited=edited, feats=sorted(feats))
             return
